@@ -12,6 +12,7 @@ CONSTANTS Comp = "multi"
   NBuf = 1
   Gaps <- G_6_31
   Strict = FALSE
+  Busy = FALSE
   D = 30
 INIT Init
 NEXT Next
